@@ -60,10 +60,12 @@ Proof. exact split_accepts_iff. Qed.
 Print Assumptions C15_split_accepts_iff.
 
 (* Histories: whatever the sequence of split-state changes, writes (accepted,
-   rejected or panicking) and flushes, the old shard holds exactly the written
-   rows in order, and every row under a new shard is a copy of one of them. *)
+   rejected or panicking), flushes, pre-existing historical chunks and
+   back-fill runs, the old shard holds exactly the written / pre-existing rows,
+   each once, and every row under a new shard (dual-write chunk or back-fill
+   copy) is a copy of one of them. *)
 Theorem C15_old_shard_holds_all_writes : forall h st,
-  stored (hrun st h) = stored st ++ written_rows h.
+  Permutation (stored (hrun st h)) (stored st ++ written_rows h).
 Proof. exact stored_is_written. Qed.
 Print Assumptions C15_old_shard_holds_all_writes.
 
@@ -100,10 +102,18 @@ Theorem C15_history_modulo_known : forall (flush_rows : N) (h : list hop) (q : q
   let st := hrun (init_state flush_rows) h in
   i_buffer st = [] -> has_active_split st = true ->
   known_class (written_rows h) q = KNone ->
-  old_rows st = written_rows h /\
+  Permutation (old_rows st) (written_rows h) /\
   Permutation (result_rows (query_state st q)) (result_rows (run_query false q [written_rows h])).
 Proof. exact history_modulo_known. Qed.
 Print Assumptions C15_history_modulo_known.
+
+(* Back-fill copies: each lives under a new shard and holds only rows of one
+   historical chunk of the old shard. *)
+Theorem C15_backfill_copies : forall sp news hist c,
+  In c (fst (backfill_chunks sp news hist)) ->
+  is_old c = false /\ exists h, In h hist /\ incl (c_rows c) (c_rows h).
+Proof. exact backfill_chunks_spec. Qed.
+Print Assumptions C15_backfill_copies.
 
 (* The repaired class: distinct rows sharing timestamp and metric name are all
    kept by SELECT *. *)
